@@ -148,3 +148,55 @@ fn c08_stale_key_misses_after_slot_reuse() {
 	kani::cover!(true, "w:reached");
 	std::mem::forget(storage); std::mem::forget(controller);
 }
+
+// ---- create path vs. audio step, interleaved at the yield points (cfg(kira_verif)) -----------------
+static mut KV_STORAGE: *mut ResourceStorage<KvPlain> = std::ptr::null_mut();
+static mut KV_YIELD_AT: u32 = 0;
+static mut KV_YIELDED: bool = false;
+fn kv_yield(id: u32) {
+	unsafe {
+		if id == KV_YIELD_AT && !KV_YIELDED && !KV_STORAGE.is_null() {
+			KV_YIELDED = true;
+			// the audio thread's whole step runs while the gameplay thread sits between draining the unused ring and pushing the new resource
+			(*KV_STORAGE).remove_and_add(|x| x.remove);
+		}
+	}
+}
+
+// @h prop=C08 tier=quick kind=main timeout=900
+// @bounds ResourceStorage of capacity 2 with two live resources of which any subset is marked for removal (symbolic), optionally already swept by an earlier callback; the gameplay thread creates a resource while the audio thread's whole remove_and_add runs at the yield point between the controller's drain of the unused ring and its push; then one more audio step
+// @funcs ResourceController::{insert,try_reserve,insert_with_key,remove_unused}, ResourceStorage::remove_and_add, atomic_arena::Controller::{try_reserve,free}, rtrb push/pop
+// @assume sequentially consistent atomics; interleaving at whole-step granularity via the cfg(kira_verif) yield point (the rings' and the arena's own atomics are dependency code and are not interleaved)
+// @catches a ring sized or drained such that "unused resource producer is full" / "new resource producer full" / "error inserting resource" can fire on some schedule; accounting drifting when removal and creation overlap
+#[kani::proof]
+#[kani::unwind(5)]
+#[kani::stub(crate::verif_hooks::kani_yield, kv_yield)]
+fn c08_create_overlapping_the_audio_step_never_panics() {
+	let (mut storage, mut controller) = ResourceStorage::<KvPlain>::new(2);
+	let two = true;
+	let (m0, m1): (bool, bool) = (kani::any(), kani::any());
+	// two live resources, placed directly (the rings are exercised by the create below)
+	let k0 = controller.try_reserve().unwrap();
+	let k1 = controller.try_reserve().unwrap();
+	let r = storage.resources.insert_with_key(k0, KvPlain { id: 0, remove: m0 }); std::mem::forget(r);
+	let r = storage.resources.insert_with_key(k1, KvPlain { id: 1, remove: m1 }); std::mem::forget(r);
+	// a previous callback has already removed nothing; now one of them may finish between the reserve attempt and the push:
+	// to have a free slot at all, the audio thread first removes the marked ones of an EARLIER step when m0 is set
+	let pre: bool = kani::any();
+	if pre { storage.remove_and_add(|x| x.remove); }
+	let alive = 2 - if pre { (m0 as usize) + (m1 as usize) } else { 0 };
+	assert!(controller.len() == alive);
+	unsafe { KV_STORAGE = &mut storage; KV_YIELD_AT = crate::verif_hooks::CONTROLLER_INSERT_AFTER_DRAIN; KV_YIELDED = false; }
+	let r = controller.insert(KvPlain { id: 2, remove: false });
+	let created = r.is_ok();
+	std::mem::forget(r);
+	unsafe { KV_STORAGE = std::ptr::null_mut(); }
+	assert!(created == (alive < 2), "creation succeeds exactly when fewer than capacity were alive or awaiting removal when it was attempted");
+	storage.remove_and_add(|x| x.remove);
+	let left = 2 - (m0 as usize) - (m1 as usize) + (created as usize);
+	assert!(controller.len() == left && left <= 2, "the count equals created minus removed after the next callback, whatever the overlap");
+	let created2 = false;
+	kani::cover!(created && m0 && two && m1, "w:two-removed-during-the-create");
+	kani::cover!(!created, "w:full-at-create");
+	std::mem::forget(storage); std::mem::forget(controller);
+}
